@@ -36,6 +36,13 @@ FUNC_DEF_RE = re.compile(r"^    [\w:<>\*& ,]+?\s+(\w+)\(([^)]*)\)\s*$")
 CALL_RE = re.compile(r"this->(\w+)\(")
 
 
+def SIZES(tier):
+    """Numbers of bindings around every word boundary of the guard array and in the middle of a word."""
+    if tier == "thorough":
+        return tuple(range(1, 131))
+    return (1, 15, 16, 17, 31, 32, 33, 48, 64, 65, 80)
+
+
 def scan_header(h):
     """-> list of (clause, message)"""
     probs = []
@@ -86,7 +93,7 @@ def scan_header(h):
     return probs, len(enumerators)
 
 
-def syntax_check(ui_text, header, type_name):
+def syntax_check(ui_text, header, type_name, lowercase=True):
     """Compiles the header alone (with its ui_*.h and the class declarations). -> error text or None"""
     base = os.environ.get("VERIF_SCRATCH", tempfile.gettempdir())
     d = tempfile.mkdtemp(prefix="verif-c16-", dir=base)
@@ -96,7 +103,7 @@ def syntax_check(ui_text, header, type_name):
         names, _c = qtmock.classes_in_ui(ui)
         decl = gen.declarations(names + qtmock.classes_in_header(header, gen.types))
         uih, _m, _rc, _rn = qtmock.ui_header(ui, type_name)
-        low = type_name.lower()
+        low = type_name.lower() if lowercase else type_name        # the file name rule uic / qt_wrap_ui follow
         with open(os.path.join(d, "decl.h"), "w") as f:
             f.write("#pragma once\n" + decl)
         with open(os.path.join(d, f"ui_{low}.h"), "w") as f:
@@ -243,15 +250,38 @@ def text_corpus(tier):
             yield ("c01/" + cid, {"source": src})
     for k, case in enumerate(c13.h2_cases()):
         yield ("c13/" + case[0], {"source": c13.HEAD + f"    VObj {{\n        id: t\n        {case[1]}: {case[2]}\n    }}\n}}\n"})
-    for n in (1, 31, 32, 33, 64, 65):
+    for n in SIZES(tier):
         yield (f"sizing/{n}", {"source": sizing_doc(n)})
         if n in (1, 33):
             yield (f"sizing-observers/{n}", {"source": sizing_doc(n, True)})
 
 
+def file_name_rule_docs(t, vd):
+    """Both file name rules (lower-case and original case): the header includes the ui header uic writes."""
+    src = "import qmluic.QtWidgets\nQWidget {\n    QCheckBox { id: c }\n    QLabel { visible: c.checked; onLinkActivated: console.log(1) }\n}\n"
+    for name in ("MainDialog", "X", "mixedCase_1", "lower", "ALLCAPS"):
+        for lowercase in (True, False):
+            r = vd.job({"id": name, "source": src, "modes": ["generate"], "type_name": name, "lowercase": lowercase})
+            g = r["modes"]["generate"]
+            t.inc("file_name_rule_documents")
+            case = {"id": f"file-name-rule/{name}/{lowercase}", "source": src, "type_name": name, "lowercase": lowercase}
+            want = "ui_" + (name.lower() if lowercase else name) + ".h"
+            incs = re.findall(r'#include "([^"]+)"', g["header"])
+            if incs != [want]:
+                t.violation("include:ui-header-name-does-not-follow-the-file-name-rule", dict(case, expected=want, includes=incs))
+                continue
+            err = syntax_check(g["ui"], g["header"], name, lowercase)
+            t.inc("headers_compiled")
+            t.distinct.add(case["id"])
+            if err:
+                t.violation("compile:" + classify_compile_error(err), dict(case, error=err[-700:]))
+
+
 def shard_text(shard, nshards, payload):
     vd = vc.worker_vdrive()
     t = vc.Tally()
+    if shard == 0:
+        file_name_rule_docs(t, vd)
     for k, (cid, job) in enumerate(text_corpus(payload["tier"])):
         if k % nshards != shard:
             continue
@@ -309,10 +339,12 @@ def exec_programs(tier, t):
     vd = vc.VDrive()
     progs_ = []
     k = 0
-    for n in (1, 31, 32, 33, 64, 65):
+    for n in SIZES(tier):
         for obs in (False, True):
-            if obs and n in (31, 64, 65) and tier == "quick":
+            if obs and n not in (1, 32, 33) and tier == "quick":
                 continue
+            if tier == "thorough" and n % 8 not in (0, 1, 7) and n > 2:
+                continue        # executed under sanitizers: around every byte boundary; all sizes are compiled and scanned
             k += 1
             src = sizing_doc(n, obs)
             pid = f"Z{k}"
